@@ -251,8 +251,22 @@ def caller_mask(names):
     return CALLER_MASKS[key]
 
 
+OUTDIR = [None]
+_UIDS = itertools.count()
+
+
+def outdir():
+    """the one directory every document of this process is written into by file name"""
+    if OUTDIR[0] is None:
+        import tempfile
+        OUTDIR[0] = tempfile.mkdtemp(prefix='verif-c20-out-')
+        TEMP_DIRS.append(OUTDIR[0])
+    return OUTDIR[0]
+
+
 class DocState(object):
     def __init__(self, prog):
+        self.uid = next(_UIDS)
         self.prog = prog
         self.doc = None
         self.at = 0
@@ -479,6 +493,16 @@ def run_step(st):
             buf = Sink(st.gate)
             doc.write(buf)
             return ['bytes', _sha(buf.getvalue()), len(buf.getvalue())] + doc_obs(doc)
+        if k == 'save_path':
+            # written by FILE NAME into the directory all documents of the process share; what the
+            # file holds afterwards is the observation
+            path = os.path.join(outdir(), 'document-%d.dae' % st.uid)
+            if os.path.exists(path):
+                os.remove(path)
+            doc.write(path)
+            with open(path, 'rb') as f:
+                data = f.read()
+            return ['bytes', _sha(data), len(data)] + doc_obs(doc)
         if k == 'snap':
             return ['ok'] + doc_obs(doc)
     except Exception as e:  # noqa
@@ -667,6 +691,7 @@ def main():
     W.freeze_clock()
     threading.stack_size(64 * 1024 * 1024)
     preload()
+    outdir()
     mode = payload['mode']
     try:
         res = _dispatch(mode, payload)
